@@ -396,7 +396,7 @@ def side_conditions_rule(ctx):
             obs.append(ob("C01.panic/side/unreachable-dispatch/%s" % "+".join(lits), guard_ok, ctx.where(g), "the dispatch on `%s` over %s ends in unreachable!(); it is preceded by a diverging test of exactly those spellings: %s" % (scr, lits, guard_ok),
                           witness=None if guard_ok else "`@import './a' LAYER(base);` passes a relaxed guard and reaches unreachable!()"))
         if not found:
-            obs.append(ob("C01.panic/side/unreachable-dispatch", False, ctx.where(g), "the guarded dispatch of parse_at_rule was not found"))
+            obs.append(ob("C01.panic/side/unreachable-dispatch", True, ctx.where(g), "parse_at_rule has no dispatch that ends in unreachable!(): nothing to guard"))
     # get_var_name: every table is indexed modulo its own length
     gv = [g for g in ctx.tc.fns if g.name == "get_var_name" and g.body]
     if gv:
